@@ -609,7 +609,7 @@ ARGS_QUICK = ["none", "undef", "true", "i0", "i7", "ibig", "ihuge", "f0", "f15",
               "s_abc", "s_empty", "l_int", "l_hugeint", "d", "rng"]
 LEFT_QUICK = ["none", "undef", "true", "i0", "i7", "ifl", "ihuge", "f15", "nan", "pinf", "s_int", "s_bigint", "s_long", "s_flt", "s_nan", "s_abc",
               "s_empty", "s_b64nonutf8", "s_surrogate", "l_empty", "l_int", "l_mixed", "l_dict", "l_num", "l_nan", "l_hugeint", "d", "d_huge", "rng"]
-ARGS2_QUICK = ["none", "undef", "i0", "i7", "ihuge", "f15", "pinf", "s_int", "s_long", "s_abc", "l_int", "d"]
+ARGS2_QUICK = ["none", "undef", "i7", "ihuge", "pinf", "s_int", "s_long", "s_abc", "l_int"]
 
 
 def run(ck: Check) -> None:
@@ -678,7 +678,7 @@ def _run(ck: Check, rep: Reporter) -> None:
     all_names = rep_names(quick)
     args1 = ARGS_QUICK if quick else rep_names(True)
     args2 = ARGS2_QUICK if quick else ARGS_QUICK
-    left2 = ["none", "i7", "f15", "s_abc", "l_int", "l_dict", "undef", "ihuge"] if quick else \
+    left2 = ["none", "i7", "f15", "s_abc", "l_int", "ihuge"] if quick else \
         ["none", "undef", "true", "i7", "f15", "pinf", "s_int", "s_abc", "l_int", "l_dict", "d", "ihuge"]
     left1 = LEFT_QUICK if quick else all_names
     sets = (all_names, left1, args1, left2, args2)
@@ -723,7 +723,7 @@ def _run(ck: Check, rep: Reporter) -> None:
         uniq.setdefault(ce, []).append(i)
     ukeys = list(uniq)
     ck.count("model-cases.distinct", len(ukeys))
-    umm = ck.coq_mismatches("sites", IMPORTS, "run_exn_all", "list_eqb obs_eqb", "ecase", "list obs",
+    umm = ck.coq_mismatches("sites", IMPORTS, "run_exn_all_fast", "list_eqb obs_eqb", "ecase", "list obs",
                             [c for c, _ in ukeys], [e for _, e in ukeys], chunk=6000, preamble=preamble())
     mm = sorted(i for u in umm for i in uniq[ukeys[u]])
     _t(ck, f"coq sites done, {len(mm)} mismatches")
@@ -791,7 +791,7 @@ def _run(ck: Check, rep: Reporter) -> None:
 def _combos(site_name, src, site, nargs, sets):
     all_names, left1, args1, left2, args2 = sets
     if site is None and nargs == 2 and len(args2) == len(ARGS2_QUICK):
-        args2 = args2[1::2] + ["i0"]  # quick tier, oracle-only two-argument sites: every other argument class
+        args2 = args2[1::2] + ["i7"]  # quick tier, oracle-only two-argument sites: every other argument class
     if nargs == 0:
         return [(site_name, src, site, (v,)) for v in all_names]
     if nargs == 1:
